@@ -122,7 +122,14 @@ impl Project {
     fn shape(self) -> Shape {
         match self {
             Project::Individuals(individuals) => {
-                Shape(individuals.into_iter().map(|i| 2 * i + 1).collect())
+                // Saturate so that an absurd number of individuals is rejected as too large
+                // rather than wrapping around to a small shape
+                Shape(
+                    individuals
+                        .into_iter()
+                        .map(|i| i.saturating_mul(2).saturating_add(1))
+                        .collect(),
+                )
             }
             Project::Shape(shape) => shape,
         }
